@@ -107,7 +107,7 @@ def main(tier):
         run.cov["distinct_nontrivial"] = len({(x["entry"], x["cell"]) for x in aggs if x["cellkind"] != "valid"})
         run.cov["rule"] = ("%d entry points (message/type/SPNEGO/GSS/PAC/kadmin decoders, message decryption per etype, key derivation from KDC "
                            "PA-data, PAC extraction from a ticket, keytab, ccache, krb5.conf) x corpus items (MIT test vectors of the repository, minted "
-                           "tokens, rendered files) x corruption classes: every prefix, every position x 7 substitutions (thorough: all 256), every DER "
+                           "tokens, rendered files) x corruption classes: every prefix, every position x 7 substitutions (krb5.conf: its 19 meaningful characters; thorough: all 256), 16/32/64-bit field overwrites at every position of the binary formats, every DER "
                            "length octet x 12 encodings, krb5.conf line corruptions; each in a worker process under ulimit -v 4 GB with a 10 s hang "
                            "watchdog. evaluations = inputs executed; distinct = (entry point, corpus item, class) cells other than the valid items" % len(entries))
         for x in aggs[:3]:
